@@ -348,9 +348,12 @@ impl TryFrom<wasmparser::HeapType> for HeapType {
             wasmparser::HeapType::Abstract { shared: true, ty } => {
                 anyhow::bail!("shared heap types are not supported: {ty:?}")
             }
-            wasmparser::HeapType::Concrete(index) => {
-                Self::Concrete(index.as_module_index().unwrap())
-            }
+            wasmparser::HeapType::Concrete(index) => match index.as_module_index() {
+                Some(index) => Self::Concrete(index),
+                // Types that have been validated as part of a component refer
+                // to concrete types by a canonical id rather than a module index
+                None => anyhow::bail!("concrete heap type `{index}` is not supported"),
+            },
             wasmparser::HeapType::Exact(_) => {
                 anyhow::bail!("exact heap types are not yet supported")
             }
